@@ -760,6 +760,9 @@ func (fr *Frame) evalCall(e *CExpr, env *Env, hint *Sort) *GVal {
 			rs = SVal
 		}
 		return tv(App(e.Name, rs, arg(0, SVal), arg(1, SStr)))
+	case "goIndex":
+		ex.p.DeclareFun("goIndex", []*Sort{SVal, SInt}, SVal)
+		return tv(App("goIndex", SVal, arg(0, SVal), arg(1, SInt)))
 	case "goElem":
 		ex.p.DeclareFun("goElem", []*Sort{SVal}, SVal)
 		return tv(App("goElem", SVal, arg(0, SVal)))
